@@ -1117,3 +1117,25 @@ Proof.
   - vm_compute in E. injection E as <-. vm_compute. reflexivity.
   - vm_compute in E. injection E as <-. vm_compute. reflexivity.
 Qed.
+
+(* ------------------------------------------------------------------ observation O-C10-1 *)
+(* Two global variable names with the same Handle::from_str hash are ONE variable: FNV-1a-32 of
+   "brljcd" and of "uqabx" is 2133916524.  The compiled program has a single variable id, both
+   SetGlobalVar instructions carry it, `variables.names` keeps the first name - and the program is
+   well-formed (ids and names stay mutually inverse), which is why C10_compile_wellformed needs no
+   collision-freedom hypothesis on names.  On the real crate (harness c10-witness): after
+   `brljcd := 1; uqabx := 2` both names read 2. *)
+Definition name_collision_module : module :=
+  main_module [CSetGlobalVar [98; 114; 108; 106; 99; 100] (CScalarInt 1);
+               CSetGlobalVar [117; 113; 97; 98; 120] (CScalarInt 2)].
+Lemma name_collision_observation :
+  handle_of_bytes [98; 114; 108; 106; 99; 100] = handle_of_bytes [117; 113; 97; 98; 120] /\
+  exists B, compile name_collision_module default_options = COk B /\
+            length (p_ids B) = 1%nat /\ map snd (p_names B) = [[98; 114; 108; 106; 99; 100]] /\
+            wf_check B = true.
+Proof.
+  split; [vm_compute; reflexivity|].
+  destruct (compile name_collision_module default_options) as [B| | |] eqn:E; try (vm_compute in E; discriminate).
+  exists B. split; [reflexivity|]. vm_compute in E. injection E as <-.
+  split; [vm_compute; reflexivity|]. split; vm_compute; reflexivity.
+Qed.
